@@ -998,6 +998,33 @@ def execute(program, ctx, mode):
                     ok = False
                     got = ('calls', list(calls))
                     want = ('calls', wcalls)
+                if ok and len(objs) == 1 and type(objs[0]).__mro__[1] is not object:
+                    # "a super proxy is replaced by its underlying object": the factory is the one lookup() finds for what the
+                    # rest of the MRO implements, and it is called with the object, not the proxy
+                    sup = super(type(objs[0]), objs[0])
+                    f2 = cold[r].lookup([providedBy(sup)], pi, nm)
+                    del calls[:]
+                    d2 = object()
+                    try:
+                        if kind == 'queryAdapter':
+                            g2 = regs[r].queryAdapter(sup, pi, nm, d2)
+                        elif kind == 'adapter_hook':
+                            g2 = regs[r].adapter_hook(pi, sup, nm, d2)
+                        else:
+                            g2 = regs[r].queryMultiAdapter((sup,), pi, nm, d2)
+                        gx = None
+                    except Boom:
+                        g2, gx = None, Boom
+                    ctx.probe('super-proxy-adapted')
+                    if f2 is None:
+                        ok = g2 is d2 and gx is None and not calls
+                    elif f2.ret == 'raise':
+                        ok = gx is Boom
+                    else:
+                        w2 = {'none': d2, 'made': ('made', f2.n, olab(objs[0])), 'falsy': Falsy('made', f2.n, olab(objs[0]))}[f2.ret]
+                        ok = gx is None and (g2 is w2 or (w2 is not d2 and g2 == w2)) and calls == [(f2.n, (olab(objs[0]),))]
+                    if not ok:
+                        got, want = ('super', repr(g2), list(calls)), ('super', repr(f2))
             else:   # subscribers
                 if objs is None:
                     continue
@@ -1286,7 +1313,10 @@ def execute(program, ctx, mode):
                     ctx.probe('identical-re-registration')
                 elif old is not None:
                     ctx.probe('overwrite')
+                g0 = regs[r]._generation
                 mutate(('reg', r, real_req(req), P[p], nm, v))
+                if old is v and 'C09' in props and regs[r]._generation != g0:
+                    ctx.violation('C09', 'no-op', 'C09|register|identical-re-registration-is-not-a-no-op', {'r': r, 'key': (norm(req), p, nm)})
                 live[(r, norm(req), p, nm)] = v
                 last_mut[0] = 'register'
                 ctx.log(step, 'reg', r, req, p, nm, v)
